@@ -524,29 +524,66 @@ def check_registry_tables(run, ctx):
         if body is None:
             run.bad('C12-S1', fn + '/fail-closed', 'fail-closed: %s not found' % fn)
             continue
-        ex = Expr(body)
-        gets = [(b, t) for b, t in body.calls() if callee_name(t) == N.HM + 'get']
-        mods = [callee_name(t).rsplit('::', 1)[-1] for b, t in body.calls() if callee_name(t) in (N.HM + 'remove', N.HM + 'clear', N.HM + 'insert', N.HM + 'retain', N.HM + 'drain', N.HM + 'remove_entry')]
+        # the lookup may live in a helper of the registry (e.g. the public getters): judge the transitive scope
+        scope = [body]
+        seen = {body.id}
+        todo = [body]
+        while todo:
+            x = todo.pop()
+            for (blk, cb, how) in ctx.prog.call_edges(x):
+                if cb.crate is ctx.core and cb.id not in seen and (ic_body is None or cb.id != ic_body.id) and \
+                        (cb.name.startswith(REG) or cb.parent in seen) and cb.name != REG + 'global':
+                    seen.add(cb.id)
+                    scope.append(cb)
+                    todo.append(cb)
+        fields = set()
+        mods = []
+        filters = []
+        gets = []
+        runner_calls = 0
+        for x in scope:
+            ex = Expr(x)
+            for b, t in x.calls():
+                cn = callee_name(t)
+                if cn in ('lock_api::rwlock::RwLock::read', 'lock_api::rwlock::RwLock::write'):
+                    root, names = field_path(ex.operand(t['args'][0]))
+                    if names:
+                        fields.add(names[-1])
+                if cn in (N.HM + 'remove', N.HM + 'clear', N.HM + 'insert', N.HM + 'retain', N.HM + 'drain', N.HM + 'remove_entry', N.HASHSET + '::remove', N.HASHSET + '::retain'):
+                    mods.append(cn.rsplit('::', 1)[-1])
+                if cn.rsplit('::', 1)[-1] in ('filter', 'filter_map', 'skip', 'take', 'take_while', 'skip_while', 'step_by', 'skip_last') and 'iter' in cn:
+                    filters.append(cn.rsplit('::', 1)[-1])
+                if cn == N.HM + 'get':
+                    gets.append((x, b, t, ex))
+                if ic_body is not None and any(cb.id == ic_body.id for cb in ctx.prog.lookup(t)):
+                    runner_calls += 1
+        probs = []
         if mods:
             run.bad('C12-S1', fn + '/consumes-registration', '%s modifies the registry table (%s): a cache is registered once, so the next invalidation by the same name no longer finds it'
                     % (fn, ', '.join(mods)), site=body.name, oracle='invalidation reads the tables, registration writes them')
             continue
-        calls = [(b, t) for b, t in body.calls() if any(cb.id == (ic_body.id if ic_body else None) for cb in ctx.prog.lookup(t))]
-        okk = False
-        got = None
-        if len(gets) == 1 and len(calls) == 1:
-            got, mode = _lock_field(ex.operand(gets[0][1]['args'][0]))
-            keyarg = ex.operand(gets[0][1]['args'][1])
-            passed = ex.operand(calls[0][1]['args'][1])
-            from_lookup = any(c[1] == N.HM + 'get' for c in calls_in(passed))
-            okk = got == fld and keyarg == ('param', 2) and from_lookup
-            ret = [ex._def(d, 0) for d in body.defs.get(0, [])]
-            okk = okk and all(r[0] == 'call' and r[3] == calls[0][0] for r in ret)
-        if okk:
-            run.ok('C12-S1', fn, 'reads %s, invalidates the looked-up set, returns its count' % fld)
+        if fields - {'clear_callbacks'} != {fld}:
+            probs.append('reads table(s) %s instead of %s' % (sorted(fields - {'clear_callbacks'}), fld))
+        if filters:
+            probs.append('drops some of the looked-up caches (%s)' % ', '.join(filters))
+        if len(gets) != 1:
+            probs.append('%d table lookups' % len(gets))
         else:
-            run.bad('C12-S1', fn + '/table-mismatch', '%s must look its argument up in %s and invalidate exactly that set (reads %s)' % (fn, fld, got), site=body.name,
-                    oracle='lookup in the same table register wrote')
+            x, b, t, ex = gets[0]
+            ke = ex.operand(t['args'][1])
+            if not (ke[0] == 'param' and ke[1] >= 2):
+                probs.append('looks up %s instead of its argument' % show(ke))
+        if runner_calls != 1:
+            probs.append('the clear-callback runner is called %d times' % runner_calls)
+        ex0 = Expr(body)
+        ret = [ex0._def(d, 0) for d in body.defs.get(0, [])]
+        if ic_body is not None and not all(r[0] == 'call' and any(cb.id == ic_body.id for cb in ctx.prog.lookup(body.term(r[3]))) for r in ret):
+            probs.append('does not return the runner\'s count')
+        if probs:
+            run.bad('C12-S1', fn + '/table-mismatch', '%s must look its argument up in %s, hand every cache found there to the clear-callback runner and return its count: %s'
+                    % (fn, fld, '; '.join(probs)), site=body.name, oracle='lookup in the same table register wrote; every matching cache is cleared')
+        else:
+            run.ok('C12-S1', fn, 'reads %s, invalidates the looked-up set, returns its count' % fld)
     mn = ctx.core_fn(N.METADATA + '::new')
     n += 1
     if mn is not None:
